@@ -3,7 +3,7 @@
 P="$(realpath "$1")"; shift
 git -C /repo apply "$P" || { echo "PATCH DOES NOT APPLY"; exit 2; }
 for id in "$@"; do
-  out=$(/verif/check $id 2>&1); rc=$?
+  out=$(VERIF_NO_EVIDENCE=1 /verif/check $id 2>&1); rc=$?
   echo "== $id rc=$rc"; echo "$out" | grep -E "VIOLATION|failed obligation|KNOWN|obligations," | head -${MAXL:-12}
 done
 git -C /repo checkout -- . 
